@@ -1840,7 +1840,7 @@ fn gen_svg(cx: &mut Cx, w: &mut W) {
             0 => format!("<rect x=\"{}\" y=\"{}\" width=\"{}\" height=\"{}\" fill=\"#{:06x}\"/>", cx.range(0, 99), cx.range(0, 99), cx.range(1, 99), cx.range(1, 99), cx.range(0, 0xFFFFFF)),
             1 => format!("<circle cx=\"{}\" cy=\"{}\" r=\"{}\"/>", cx.range(0, 99), cx.range(0, 99), cx.range(1, 50)),
             2 => format!("<g id=\"g{}\"><path d=\"M{} {} L{} {} Z\"/><metadata>nested, not the C2PA place</metadata></g>", cx.range(0, 999), cx.range(0, 99), cx.range(0, 99), cx.range(0, 99), cx.range(0, 99)),
-            3 => format!("<text x=\"{}\" y=\"{}\">{} &amp; &lt;more&gt;</text>", cx.range(0, 99), cx.range(0, 99), String::from_utf8(cx.ascii(10)).unwrap()),
+            3 => format!("<text x=\"{}\" y=\"{}\">{} &amp; &lt;more&gt; it's \"raw\" quotes</text>", cx.range(0, 99), cx.range(0, 99), String::from_utf8(cx.ascii(10)).unwrap()),
             4 => format!("<style><![CDATA[ .c{} {{ fill: red; }} /* <metadata> in CDATA */ ]]></style>", cx.range(0, 99)),
             _ => "<!-- a comment with <svg> and <metadata> inside -->".to_string(),
         };
